@@ -267,6 +267,12 @@ func (h *H) typedCase(e *entry, bs []byte, label string, wantVal string, meas bo
 			ge = "err: " + o.err.Error()
 		}
 		h.fail("correspondence", "", "class "+e.name, fmt.Sprintf("%s (%s): real decoder says %s, model says %s", e.name, label, ge, lean), []string{line})
+		if goOK {
+			// the property's statement on the real code alone: accepted => re-encodes to exactly those bytes
+			if re, eerr, epan := goEncode(o.g); eerr == nil && epan == nil && !bytes.Equal(re, bs) && !e.rules["dsMap"] {
+				h.fail("oracle", "", "noncanonical "+e.name, fmt.Sprintf("%s (%s): the real decoder accepts bytes that re-encode differently\ninput     %x\nre-encode %x", e.name, label, bs, re), []string{line})
+			}
+		}
 		return goOK, deep
 	}
 	if wantVal != "" && !goOK {
@@ -328,7 +334,7 @@ func (h *H) typedCase(e *entry, bs []byte, label string, wantVal string, meas bo
 	for _, r := range ruleOrder {
 		if hits[r] {
 			h.res.Dist("known-rule:" + r)
-			h.fail("oracle", ruleMatcher[r], r, fmt.Sprintf("%s: accepted bytes are not the encoding of the decoded value (rule %s)\ninput     %x\nre-encode %x", e.name, r, bs, re), []string{line})
+			h.fail("oracle", ruleMatcher[r], r, fmt.Sprintf("%s: accepted bytes are not the encoding of the decoded value (rule %s)\ninput     %x\nre-encode %x", e.name, r, bs, reN), []string{line})
 			break
 		}
 	}
@@ -389,6 +395,11 @@ func (h *H) untypedCase(bs []byte, label string, meas bool) (accepted bool, deep
 			ge = "err: " + err.Error()
 		}
 		h.fail("correspondence", "", "class untyped", fmt.Sprintf("untyped (%s): real decoder says %s, model says %s", label, ge, lean), []string{line})
+		if goOK {
+			if re, eerr, epan := goEncode(x); eerr == nil && epan == nil && !bytes.Equal(re, bs) {
+				h.fail("oracle", "", "noncanonical untyped", fmt.Sprintf("untyped (%s): the real decoder accepts bytes that re-encode differently\ninput     %x\nre-encode %x", label, bs, re), []string{line})
+			}
+		}
 		return goOK, deep
 	}
 	if !goOK {
@@ -512,7 +523,7 @@ func run(c *vh.Ctx) error {
 	}
 
 	// ---- (a) untyped -------------------------------------------------------------------------------------------
-	nU := c.N(6000, 120000)
+	nU := c.N(10000, 150000)
 	if c.Search {
 		nU *= 3
 	}
@@ -549,7 +560,7 @@ func run(c *vh.Ctx) error {
 	}
 
 	// ---- (b) typed ------------------------------------------------------------------------------------------------
-	perType := c.N(60, 1200)
+	perType := c.N(100, 1200)
 	if c.Search {
 		perType *= 3
 	}
@@ -580,6 +591,9 @@ func run(c *vh.Ctx) error {
 			if g0, gerr := goValue(c.R, e); gerr == nil {
 				if gb, eerr, epan := goEncode(g0); eerr != nil || epan != nil {
 					res.Dist("go-valid-outside-encoder-domain")
+				} else if why := honestRoundTrip(e, gb); why != "" {
+					// the property's round-trip statement on the real code alone (no model involved)
+					h.fail("oracle", "", "honest-roundtrip "+e.name, fmt.Sprintf("%s: %s\nencoding of an honest value: %x", e.name, why, gb), []string{"G " + e.name + " " + hx(gb)})
 				} else if av, aerr := e.abstractGo(g0); aerr != nil {
 					if !errors.Is(aerr, errStale) {
 						res.Dist("go-valid-not-a-model-value")
@@ -640,6 +654,35 @@ func run(c *vh.Ctx) error {
 	return h.err
 }
 
+// honestRoundTrip: bytes written by the real encoder for an honest value must be accepted by the real decoder and
+// re-encode to themselves (EvidenceDoubleSign: up to the order of its map entries).
+func honestRoundTrip(e *entry, bs []byte) string {
+	o := goDecode(e, bs)
+	if o.pan != nil {
+		return fmt.Sprintf("the decoder panics on the encoder's output: %v", o.pan)
+	}
+	if o.err != nil {
+		return fmt.Sprintf("the decoder rejects the encoder's output: %v", o.err)
+	}
+	re, eerr, epan := goEncode(o.g)
+	if eerr != nil || epan != nil {
+		return fmt.Sprintf("the decoded value cannot be encoded again: %v %v", eerr, epan)
+	}
+	a, b := bs, re
+	if e.rules["dsMap"] {
+		if t, err := parseTree(bs); err == nil {
+			a = sortDs(e.sch, t).enc()
+		}
+		if t, err := parseTree(re); err == nil {
+			b = sortDs(e.sch, t).enc()
+		}
+	}
+	if !bytes.Equal(a, b) {
+		return fmt.Sprintf("decode∘encode is not the identity on the encoder's output: re-encoded as %x", re)
+	}
+	return ""
+}
+
 func clip(s string) string {
 	if len(s) > 400 {
 		return s[:400] + "…"
@@ -677,6 +720,14 @@ func (h *H) replayBody(body []string) (bool, string) {
 				continue
 			}
 			h.typedCase(e, unhx(ans[1]), "replay", f[2], true)
+		case len(f) == 3 && f[0] == "G":
+			// bytes the real encoder produced from an honest value: the real decoder must take them back
+			if e := h.byName[f[1]]; e != nil {
+				if why := honestRoundTrip(e, unhx(f[2])); why != "" {
+					h.failed = true
+					h.msgs = append(h.msgs, why)
+				}
+			}
 		case len(f) >= 2 && f[0] == "M":
 			if w := hostileOne(f[1], unhx(f[len(f)-1])); w != "" {
 				h.failed = true
